@@ -7,7 +7,8 @@ Import ListNotations.
 
 Inductive sx := At (z : Z) | Bs (b : bytes) | Li (l : list sx).
 
-Definition sx_err (code : Z) : sx := Li [At (-1)%Z; At code].
+(* error reply: (#21657272 code)  -- the byte string "!err"; cannot collide with a list of integers *)
+Definition sx_err (code : Z) : sx := Li [Bs [33; 101; 114; 114]%N; At code].
 Definition sx_bool (b : bool) : sx := At (if b then 1 else 0)%Z.
 Definition sx_N (n : N) : sx := At (Z.of_N n).
 Definition sx_nat (n : nat) : sx := At (Z.of_nat n).
